@@ -769,7 +769,12 @@ func MutateConf(t *rapid.T, cur, initial *configs.SchedulerConfig) *configs.Sche
 			}
 		case 3: // max applications
 			r.q.MaxApplications = rapid.Uint64Range(0, 4).Draw(t, "apps-v")
-		case 4, 5: // remove a queue (with its subtree)
+		case 4, 5: // remove a queue (with its subtree), or turn a parent into a leaf (all of its children leave the configuration)
+			if r.parent != nil && len(r.q.Queues) > 0 && rapid.IntRange(0, 2).Draw(t, "parent-to-leaf") == 0 {
+				r.q.Queues = nil
+				r.q.Parent = false
+				break
+			}
 			if r.parent != nil {
 				for j := range r.parent.Queues {
 					if &r.parent.Queues[j] == r.q {
